@@ -2608,7 +2608,9 @@ static int jdf_generate_dependency( const jdf_t *jdf, jdf_dataflow_t *flow, jdf_
     } else {
         if ( NULL != call->parameters ) {
             tmp_fct_name = string_arena_new(64);
-            string_arena_add_string(tmp_fct_name, "%s_direct_access", JDF_OBJECT_ONAME(dep));
+            /* Named after the call, not the dependency: the two branches of a ternary
+             * guard may both reference memory and each needs its own accessor. */
+            string_arena_add_string(tmp_fct_name, "%s_direct_access", JDF_OBJECT_ONAME(call));
             jdf_generate_direct_data_function(jdf, call->func_or_mem, call->parameters, f,
                                               string_arena_get_string(tmp_fct_name));
             string_arena_add_string(sa,
